@@ -53,6 +53,15 @@ func extractFingerprints(repo string) (string, error) {
 			}
 		}
 	}
+	// the generated lexer / parser (serialised ATN included) and the grammar file, as whole files
+	for _, f := range []string{"internal/iantlr/alr/gengine_parser.go", "internal/iantlr/alr/gengine_lexer.go", "internal/iantlr/gengine.g4"} {
+		b, err := os.ReadFile(filepath.Join(repo, f))
+		if err != nil {
+			return "", err
+		}
+		h := sha256.Sum256(b)
+		out["internal/iantlr:file:"+filepath.Base(f)] = hex.EncodeToString(h[:8])
+	}
 	keys := make([]string, 0, len(out))
 	for k := range out {
 		keys = append(keys, k)
